@@ -199,6 +199,8 @@ type Conn struct {
 	lastState *smtp.VerifState
 	events    []Event
 	ended     bool // the "end" hook fired: handleConn is returning
+	spawned   int           // BDAT delivery goroutines launched on this connection
+	lateHold  chan struct{} // non-nil: deliveries are held before their Data callback until it is closed
 }
 
 // Ended reports whether the server's handler for this connection returned.
@@ -222,8 +224,101 @@ var (
 	traceSet sync.Once
 )
 
+// The gates.  By default the command loop is held, right after it launched a
+// BDAT delivery goroutine, until that goroutine's Data callback has begun:
+// the schedule "the goroutine is not scheduled for a long time" is taken out
+// of every ordinary engine (where it would make outcomes depend on the load
+// of the machine) and explored on purpose, with HoldDeliveryStart, by the
+// late-start schedules of C03/C08.
+var (
+	gateMu    sync.Mutex
+	extraGate func(*smtp.Conn, string)
+)
+
+// SetExtraGate installs f for the gate sites the driver does not handle itself.
+func SetExtraGate(f func(*smtp.Conn, string)) {
+	gateMu.Lock()
+	extraGate = f
+	gateMu.Unlock()
+}
+
+// HoldDeliveryStart makes BDAT delivery goroutines of this connection wait
+// before they call the backend; ReleaseDeliveryStart lets them go.
+func (c *Conn) HoldDeliveryStart() {
+	c.mu.Lock()
+	c.lateHold = make(chan struct{})
+	c.mu.Unlock()
+}
+
+func (c *Conn) ReleaseDeliveryStart() {
+	c.mu.Lock()
+	if c.lateHold != nil {
+		close(c.lateHold)
+		c.lateHold = nil
+	}
+	c.mu.Unlock()
+}
+
+func connOf(sc *smtp.Conn) *Conn {
+	if sc == nil {
+		return nil
+	}
+	regMu.Lock()
+	defer regMu.Unlock()
+	return bySC[sc]
+}
+
+func dispatchGate(sc *smtp.Conn, name string) {
+	switch name {
+	case "bdat-spawned":
+		c := connOf(sc)
+		if c == nil || c.Srv == nil || c.Srv.BE == nil {
+			return
+		}
+		c.mu.Lock()
+		c.spawned++
+		want, held := c.spawned, c.lateHold != nil
+		c.mu.Unlock()
+		if held {
+			return
+		}
+		for dl := time.Now().Add(3 * time.Second); time.Now().Before(dl); {
+			n, ok := c.Srv.BE.Begun(sc)
+			if !ok || n >= want {
+				return
+			}
+			time.Sleep(20 * time.Microsecond)
+		}
+	case "bdat-deliver-start":
+		c := connOf(sc)
+		if c == nil {
+			return
+		}
+		c.mu.Lock()
+		h := c.lateHold
+		c.mu.Unlock()
+		if h != nil {
+			select {
+			case <-h:
+			case <-time.After(20 * time.Second):
+			}
+		}
+	default:
+		gateMu.Lock()
+		f := extraGate
+		gateMu.Unlock()
+		if f != nil {
+			f(sc, name)
+		}
+	}
+}
+
+// InstallHooks installs the tracer and the gate dispatcher (idempotent).
+func InstallHooks() { installTracer() }
+
 func installTracer() {
 	traceSet.Do(func() {
+		smtp.VerifGate = dispatchGate
 		smtp.VerifTracer = func(sc *smtp.Conn, ev string, st *smtp.VerifState, args []interface{}) {
 			regMu.Lock()
 			c := bySC[sc]
